@@ -17,7 +17,7 @@ for pid in ids:
             "evidence_file": "/verif/evidence/%s.json" % pid,
             "replay_cmd_template": "cat {path}",
             "engine": "rules",
-            "level_claimed": {"category": c.get("level", "other"), "text": c["text"], "design_ref": "DESIGN.md §4 " + pid},
+            "level_claimed": {"category": c.get("level", "other"), "text": c["text"], "design_ref": c.get("design_ref", "DESIGN.md §4 " + pid + " and §9")},
             "level_note": c.get("note", "Trusted: rustc nightly HIR/MIR of crate turdb (lib, default features), Instance::try_resolve callee resolution, the rule tables in rules/props, POSIX file semantics. Decides the named structural clauses only, not the behavioural property."),
             "technique": c["technique"],
         })
